@@ -57,6 +57,7 @@ type step struct {
 	Ms     int    `json:"ms,omitempty"`
 	Max    int32  `json:"max,omitempty"`
 	Burst  int32  `json:"burst,omitempty"`
+	Shard  int    `json:"shard,omitempty"`
 	Uc     string `json:"uc,omitempty"` // used class relative to the instance's current quota: zero|half|full|over
 	Lc     string `json:"lc,omitempty"` // level class: honest|zero|over
 }
@@ -68,6 +69,8 @@ type scenario struct {
 	Store     string     `json:"store"`
 	Upstreams []upstream `json:"upstreams"`
 	Steps     []step     `json:"steps"`
+	// followers can not take a lease until a "healshard" step allows it (C13 histories)
+	FollowersBlocked bool `json:"followersBlocked,omitempty"`
 }
 
 type ev map[string]interface{}
@@ -77,6 +80,7 @@ type server struct {
 	rl     limiter.RateLimiter
 	stop   chan struct{}
 	failed *bool
+	fshard map[int]bool // lease operations of this server fail for these shards
 }
 
 func schema(u upstream) proxyv1alpha1.FlowControlSchema {
@@ -183,7 +187,37 @@ func (w *world) observe(s *server, up string) ev {
 	return out
 }
 
-func (w *world) add(e ev) { w.mu.Lock(); w.events = append(w.events, e); w.mu.Unlock() }
+var leaderRe = regexp.MustCompile(`leader is (\S*)`)
+
+// what server s knows about the shard of `up` right before a call
+func (w *world) shardInfo(e ev, s *server, up string) {
+	sh := rlutil.GetShardID(up, w.sc.Shards)
+	e["sh"] = sh
+	l := s.rl.GetLeaders()[sh]
+	e["known"] = l.Leader
+	e["leader"] = l.Leader == s.name
+}
+
+// recorded state of an upstream on every server (JSON), to decide "changes nothing"
+func (w *world) allState(up string) string {
+	all := map[string]interface{}{}
+	for _, n := range w.sc.Servers {
+		all[n] = w.observe(w.servers[n], up)
+	}
+	b, _ := json.Marshal(all)
+	return string(b)
+}
+
+func (w *world) add(e ev) {
+	if err, ok := e["err"].(string); ok {
+		if m := leaderRe.FindStringSubmatch(err); m != nil {
+			e["lerr"], e["named"] = true, m[1]
+		}
+	}
+	w.mu.Lock()
+	w.events = append(w.events, e)
+	w.mu.Unlock()
+}
 
 func (w *world) srv(name string) *server {
 	if name == "" {
@@ -201,7 +235,7 @@ func (w *world) doStep(st step) {
 		w.add(ev{"k": "sleep", "ms": st.Ms})
 	case "hb":
 		w.srv(st.Srv).rl.Heartbeat(st.Inst)
-		w.add(ev{"k": "hb", "srv": w.srv(st.Srv).name, "inst": st.Inst})
+		w.add(ev{"k": "hb", "srv": w.srv(st.Srv).name, "inst": st.Inst, "now": time.Now().UnixMilli()})
 	case "report":
 		s := w.srv(st.Srv)
 		u := w.ups[st.Up]
@@ -249,11 +283,14 @@ func (w *world) doStep(st step) {
 			w.insts[st.Up] = map[string]bool{}
 		}
 		w.insts[st.Up][st.Inst] = true
-		e := ev{"k": "report", "srv": s.name, "up": st.Up, "inst": st.Inst, "used": st.Used, "level": level, "cur": curQ, "type": u.Type,
+		e := ev{"k": "report", "srv": s.name, "up": st.Up, "inst": st.Inst, "used": st.Used, "level": level, "cur": curQ, "type": u.Type, "now": time.Now().UnixMilli(),
 			"leader": w.leaderOf(st.Up) == s}
 		pre := w.observe(s, st.Up)
 		e["pre"] = pre
+		w.shardInfo(e, s, st.Up)
+		before := w.allState(st.Up)
 		ans, err := s.rl.UpdateRateLimitConditionStatus(st.Up, cond)
+		e["changed"] = before != w.allState(st.Up)
 		if err != nil {
 			e["err"] = err.Error()
 		} else {
@@ -300,7 +337,10 @@ func (w *world) doStep(st step) {
 		}
 		e := ev{"k": "acquire", "srv": s.name, "up": st.Up, "inst": st.Inst, "tokens": st.Tokens, "id": st.ID, "type": w.ups[st.Up].Type,
 			"now": time.Now().UnixMilli(), "leader": w.leaderOf(st.Up) == s}
+		w.shardInfo(e, s, st.Up)
+		before := w.allState(st.Up)
 		res, err := s.rl.DoAcquire(st.Up, req)
+		e["changed"] = before != w.allState(st.Up)
 		if err != nil {
 			e["err"] = err.Error()
 		} else if len(res.Status.Results) != 1 {
@@ -331,6 +371,73 @@ func (w *world) doStep(st step) {
 		}
 		e["ups"] = ups
 		w.add(e)
+	case "capacity":
+		// how much of the global max-in-flight limit is free: a probe instance asks for the whole limit
+		s := w.srv(st.Srv)
+		u := w.ups[st.Up]
+		ask := func(n int32) (int32, string) {
+			req := &proxyv1alpha1.RateLimitAcquire{Spec: proxyv1alpha1.RateLimitAcquireSpec{Instance: "probe",
+				Requests: []proxyv1alpha1.RateLimitAcquireRequest{{FlowControl: "s", Tokens: n}}}}
+			res, err := s.rl.DoAcquire(st.Up, req)
+			if err != nil {
+				return -1, err.Error()
+			}
+			if len(res.Status.Results) != 1 {
+				return -1, "results"
+			}
+			r := res.Status.Results[0]
+			if r.Error != "" {
+				return -1, r.Error
+			}
+			return r.Limit, ""
+		}
+		g, e1 := ask(u.Max)
+		ask(0)
+		e := ev{"k": "capacity", "up": st.Up, "granted": g, "max": u.Max, "now": time.Now().UnixMilli()}
+		if e1 != "" {
+			e["err"] = e1
+		}
+		w.add(e)
+	case "failshard", "healshard":
+		w.mu.Lock()
+		w.srv(st.Srv).fshard[st.Shard] = st.K == "failshard"
+		w.mu.Unlock()
+		w.add(ev{"k": st.K, "srv": w.srv(st.Srv).name, "shard": st.Shard})
+	case "shardobs":
+		// per (server, shard): believes it leads? has a store? which (upstream, instance) records does it hold?
+		for _, n := range w.sc.Servers {
+			s := w.servers[n]
+			for sh := 0; sh < w.sc.Shards; sh++ {
+				l, ok := s.rl.GetLeaders()[sh]
+				e := ev{"k": "obs", "srv": n, "sh": sh, "leads": ok && l.Leader == n, "hasstore": false}
+				recs := [][]string{}
+				unames := []string{}
+				for name := range w.ups {
+					unames = append(unames, name)
+				}
+				sort.Strings(unames)
+				for _, name := range unames {
+					if rlutil.GetShardID(name, w.sc.Shards) != sh {
+						continue
+					}
+					if _, err := s.rl.GetUpstreamStatus(name); err == nil {
+						e["hasstore"] = true
+					}
+					inames := []string{}
+					for i := range w.insts[name] {
+						inames = append(inames, i)
+					}
+					sort.Strings(inames)
+					for _, i := range inames {
+						if _, err := s.rl.GetRateLimitCondition(name, rlutil.GenerateRateLimitConditionName(name, i)); err == nil {
+							recs = append(recs, []string{name, i})
+						}
+					}
+				}
+				e["recs"] = recs
+				w.add(e)
+			}
+		}
 	case "failrenew":
 		*w.srv(st.Srv).failed = true
 		w.add(ev{"k": "failrenew", "srv": w.srv(st.Srv).name})
@@ -370,6 +477,14 @@ func runScenario(t *testing.T, sc scenario) []ev {
 				if f, ok := failed[*l.Spec.HolderIdentity]; ok && *f {
 					return true, nil, fmt.Errorf("injected: lease renewal of %s fails", *l.Spec.HolderIdentity)
 				}
+				w.mu.Lock()
+				srv := w.servers[*l.Spec.HolderIdentity]
+				sh, _ := strconv.Atoi(l.Name[strings.LastIndex(l.Name, "-")+1:])
+				bad := srv != nil && srv.fshard[sh]
+				w.mu.Unlock()
+				if bad {
+					return true, nil, fmt.Errorf("injected: lease %s of %s fails", l.Name, *l.Spec.HolderIdentity)
+				}
 			}
 			return false, nil, nil
 		})
@@ -383,8 +498,15 @@ func runScenario(t *testing.T, sc scenario) []ev {
 			if err != nil {
 				t.Fatalf("NewRateLimiter: %v", err)
 			}
-			s := &server{name: n, rl: rl, stop: make(chan struct{}), failed: failed[n]}
+			s := &server{name: n, rl: rl, stop: make(chan struct{}), failed: failed[n], fshard: map[int]bool{}}
+			if n != sc.Servers[0] && sc.FollowersBlocked {
+				for sh := 0; sh < sc.Shards; sh++ {
+					s.fshard[sh] = true
+				}
+			}
+			w.mu.Lock()
 			w.servers[n] = s
+			w.mu.Unlock()
 			go rl.Run(s.stop)
 			// the first server wins every shard; later ones start as followers
 			time.Sleep(3 * time.Second)
